@@ -1,6 +1,6 @@
 (* C08 — the latitude-name lookup regenerated from the source: exactly one accepted name => that
    dimension; none or several => refused. *)
-From Coq Require Import String List Bool Lia.
+From Coq Require Import String List Bool Lia Permutation.
 From XV Require Import Gen.T6lat.
 Import ListNotations.
 
@@ -40,3 +40,19 @@ Proof. repeat split; reflexivity. Qed.
 
 Lemma coslat_steps : coslat_weight_steps = [WDeg2Rad; WCos; WClip01; WSqrt].
 Proof. reflexivity. Qed.
+
+(* the lookup depends on which feature dimensions there are, not on the order they are named in *)
+Lemma filter_perm {A} (f : A -> bool) l l' : Permutation l l' -> Permutation (filter f l) (filter f l').
+Proof. induction 1 as [|x l l' H IH|x y l|l l' l'' H1 IH1 H2 IH2]; cbn [filter].
+  - constructor.
+  - destruct (f x); [constructor|]; exact IH.
+  - destruct (f x), (f y); try apply Permutation_refl. apply perm_swap.
+  - eapply perm_trans; eassumption. Qed.
+Lemma lat_lookup_perm dims dims' : Permutation dims dims' ->
+  extract_latitude_dimension dims = extract_latitude_dimension dims'.
+Proof. intros H. unfold extract_latitude_dimension, lat_candidates.
+  pose proof (filter_perm (fun d => existsb (String.eqb d) valid_latitude_names) _ _ H) as Hp.
+  set (a := filter _ dims) in *. set (b := filter _ dims') in *. clearbody a b.
+  pose proof (Permutation_length Hp) as Hl.
+  destruct a as [|x [|y a]]; destruct b as [|u [|v b]]; try discriminate Hl; try reflexivity.
+  apply Permutation_length_1 in Hp. subst; reflexivity. Qed.
